@@ -340,6 +340,7 @@ func runC11(e *Engine, r *Report) {
 	ruleSnapshotJobExclusion(e, r)
 	ruleLastAppliedContiguous(e, r)
 	ruleTaskQueueFIFO(e, r)
+	ruleStartExclusive(e, r)
 	ruleJobRegistered(e, r)
 	ruleJobUnregistered(e, r)
 }
